@@ -522,7 +522,7 @@ def active_set(case, drv):
     return set(range(n))
 
 
-def execute(case, b, drv, observers=(), graphs=None, prepare=None):
+def execute(case, b, drv, observers=(), graphs=None, prepare=None, broker=None):
     """Runs the real engine.  Returns (broker, escaped exception or None).
 
     prepare: optional callable(broker) run on the fresh broker before the engine starts (what a caller
@@ -530,24 +530,31 @@ def execute(case, b, drv, observers=(), graphs=None, prepare=None):
 
     graphs: optional dict kept by the caller across several calls; the graph object built for the
     driver is stored there and handed to the engine again (a caller that evaluates the same graph
-    dict repeatedly, as dr.run() on a group or cluster processing do)."""
+    dict repeatedly, as dr.run() on a group or cluster processing do).
+
+    broker: optional broker an earlier call returned: the engine is started again on that very broker
+    (a caller that evaluates repeatedly on one broker, as the interactive shell does); nothing is
+    seeded, registered or prepared a second time."""
     from insights.core import dr
     comps = b.comps
     nodes = case["nodes"]
-    broker = dr.Broker()
-    broker.store_skips = case["store_skips"]
-    for i in case["seeded"]:
-        broker[comps[i]] = seed_value(case, i)
+    again = broker is not None
+    if not again:
+        broker = dr.Broker()
+        broker.store_skips = case["store_skips"]
+        for i in case["seeded"]:
+            broker[comps[i]] = seed_value(case, i)
     for i in case["disabled"]:
         dr.set_enabled(comps[i], False)
 
     def recorder(c, brk):
         b.log.append(("obs", b.index.get(c, -1)))
-    broker.add_observer(recorder)
-    for o in observers:
-        broker.add_observer(o[0], o[1])
-    if prepare is not None:
-        prepare(broker)
+    if not again:
+        broker.add_observer(recorder)
+        for o in observers:
+            broker.add_observer(o[0], o[1])
+        if prepare is not None:
+            prepare(broker)
     kind = drv["kind"]
     escaped = None
 
